@@ -6,7 +6,7 @@ set -u
 P=$(readlink -f "$1"); DEMO=$(readlink -f "$2"); shift 2
 WT=$(mktemp -d /var/tmp/kv_seed.XXXXXX); rmdir "$WT"
 git -C /repo worktree add -q --detach "$WT" HEAD
-trap 'git -C /repo worktree remove --force "$WT" >/dev/null 2>&1; rm -rf "$WT"' EXIT
+trap 'git -C /repo worktree remove --force "$WT" >/dev/null 2>&1; rm -rf "$WT" "$KV_WORK" "$KV_EVID"' EXIT
 echo "== demo on clean tree"; (cd "$(dirname "$DEMO")" && timeout 1200 bash "$DEMO" "$WT" >/dev/null 2>&1 </dev/null); echo "demo_clean_rc=$?"
 git -C "$WT" apply "$P" || { echo "PATCH DOES NOT APPLY"; exit 2; }
 echo "== build + ctest with the change"
@@ -16,6 +16,7 @@ echo "== demo on changed tree"; (cd "$(dirname "$DEMO")" && timeout 1200 bash "$
 rm -rf "$WT/_b"
 cd "$(dirname "$0")/.."
 export KV_EVID=$(mktemp -d /var/tmp/kv_evid.XXXXXX)
+export KV_WORK=$(mktemp -d /var/tmp/kv_work.XXXXXX); cp -a coq ocaml "$KV_WORK"/
 for id in "$@"; do
   echo "== check $id"
   KV_REPO="$WT" timeout 3000 tools/check "$id" quick 2>&1 | grep -E "VIOLATION|KNOWN" | head -5; echo "check_${id}_rc=${PIPESTATUS[0]}"
